@@ -202,6 +202,51 @@ def run(ctx):
                 walk(fi["file_path"])
         shutil.rmtree(root, ignore_errors=True)
     ctx.cov["files_verified_after_histories"] = hist_files
+    # ---- several infos for the same list reach one commit, the first of them stale: a filler's infos are held back
+    # (auto_update_dataset=False), another session appends to the same directory and is committed, then the held-back infos are
+    # committed; and two such fillers handed to one write_config.  Every recorded digest = digest of the bytes now on disk.
+    from sedpack.io import Dataset
+    from sedpack.io.dataset_filler import DatasetFiller
+    def recorded_vs_real(root, names):
+        bad = []
+        def cmp(fi):
+            rel = fi["file_path"]; data = (root / rel).read_bytes()
+            exp = [independent(n, data) for n in names]
+            if list(fi["hash_checksums"]) != exp:
+                bad.append(rel)
+        def walk(rel):
+            doc = json.loads((root / rel).read_text())
+            for sh in doc.get("shard_files", []):
+                for fi in sh["file_infos"]: cmp(fi)
+            for ch in doc.get("children_shard_lists", []):
+                cmp(ch["shard_list_info_file"]); walk(ch["shard_list_info_file"]["file_path"])
+        info = json.loads((root / "dataset_info.json").read_text())
+        for rec in info.get("splits", {}).values():
+            cmp(rec["shard_list_info_file"]); walk(rec["shard_list_info_file"]["file_path"])
+        return bad
+    for variant in ("held-back-then-appended", "two-held-back"):
+        names = [ALGOS[(ctx.seed + 3) % len(ALGOS)], "sha256"]
+        root = ctx.scratch / f"c16_{variant}"
+        ds = sp.mk(root, fmt="fb", eps=2, hashes=tuple(names))
+        v = [0]
+        def fill(sub, n, auto=True):
+            fl = DatasetFiller(ds, relative_path_from_split=Path(sub), auto_update_dataset=auto)
+            with fl as f:
+                for _ in range(n):
+                    f.write_example(values=sp.val(v[0]), split="train"); v[0] += 1
+            return fl
+        fill("part", 3)
+        if variant == "held-back-then-appended":
+            held = fill("part", 2, auto=False); fill("part", 3)
+            ds.write_config(updated_infos=held.get_updated_infos())
+        else:
+            h1 = fill("part", 2, auto=False); h2 = fill("part", 3, auto=False)
+            ds.write_config(updated_infos=h1.get_updated_infos() + h2.get_updated_infos())
+        bad = recorded_vs_real(root, names)
+        if bad or sorted(sp.read_ids(Dataset(root), "train")) != list(range(v[0])):
+            ctx.report({"kind": "digest", "site": "recorded-after-held-back-infos", "variant": variant},
+                       f"{variant}: the checksums recorded for {bad[:3]} are not the digests of the files on disk (or examples are missing)", {"variant": variant, "names": names, "files": bad})
+        shutil.rmtree(root, ignore_errors=True)
     # ---- overlapping calls: several threads digest different multi-chunk files at the same time (threads that each fill a
     # dataset, a check running while another thread writes); the digest of a file may not depend on who else is hashing
     import threading
